@@ -579,6 +579,9 @@ func TestVerifC03Ops(t *testing.T) {
 	var rc struct {
 		History []string `json:"history"`
 	}
+	if os.Getenv("VERIF_REPLAY") != "" && !r.ReplayCase(&rc) {
+		return // the replay file belongs to another part
+	}
 	if r.ReplayCase(&rc) {
 		var hist []int
 		for _, nm := range rc.History {
